@@ -64,6 +64,9 @@ class Sub:
             self.ended = 'completed'
 
 
+_RESUB = [0]
+
+
 def drive(mode, make_op, items, decoy=None):
     """Push `items` one at a time through a fresh operator.
     make_op(calls) -> operator, `calls` is a one-element list counting key_mapper calls.
@@ -75,8 +78,21 @@ def drive(mode, make_op, items, decoy=None):
     subj = Subject()
     sub = Sub()
     if mode == 'plain':
-        subj.pipe(op).subscribe(on_next=sub.cur.append, on_error=sub.on_error,
-                                on_completed=sub.on_completed)
+        piped = subj.pipe(op)
+        _RESUB[0] += 1
+        if _RESUB[0] % 3 == 0 and len(items) > 0:
+            # the same piped observable served an earlier subscription (disposed before
+            # the end): the subscription under test must start from a fresh accumulator
+            warm = piped.subscribe(on_next=lambda x: None, on_error=lambda e: None)
+            try:
+                for x in items[:2]:
+                    subj.on_next(x)
+            except Exception:
+                pass
+            warm.dispose()
+            calls[0] = 0
+        piped.subscribe(on_next=sub.cur.append, on_error=sub.on_error,
+                        on_completed=sub.on_completed)
         send = subj.on_next
     elif mode == 'store':
         subj.pipe(rs.state.with_memory_store([op])).subscribe(
@@ -377,10 +393,17 @@ def probe_run(mode, reduce, ops, xs):
         for x in xs:
             subj.on_next((x,))
     else:
+        # a second key of a very different magnitude is interleaved: its items must not
+        # influence the statistics of the key under test
         subj.on_next(rs.OnCreateMux((1,)))
-        for x in xs:
+        subj.on_next(rs.OnCreateMux((2,)))
+        big = [1e16, 3.0, -1e16 + 2.0, 1e-9, 7e15]
+        for n, x in enumerate(xs):
+            if n < 64:
+                subj.on_next(rs.OnNextMux((2,), (big[n % len(big)],)))
             subj.on_next(rs.OnNextMux((1,), (x,)))
         subj.on_next(rs.OnCompletedMux((1,)))
+        subj.on_next(rs.OnCompletedMux((2,)))
     subj.on_completed()
     return {op: (s.cur, s.ended) for op, s in subs.items()}
 
